@@ -29,6 +29,7 @@ def run(cmd, **kw):
 
 def main():
     src, sid, pid = sys.argv[1:4]
+    src = os.path.abspath(src)
     skip_tests = "--skip-tests" in sys.argv
     phase = "both"
     if "--phase" in sys.argv:
